@@ -56,6 +56,8 @@ func measOf(class string) []byte {
 		return Meas("unlisted")
 	case "short":
 		return Meas("m2")[:47]
+	case "nomeas":
+		return nil // the report carries no measurement at all
 	}
 	return Meas(class)
 }
